@@ -1,5 +1,5 @@
 From Coq Require Import List ZArith Bool.
-From MM Require Import model.Dates harness.RunCommon.
+From MM Require Import model.Dates gen.Gen_Dates harness.RunCommon.
 Import ListNotations.
 Open Scope Z_scope.
 
@@ -15,4 +15,12 @@ Definition model_out (es : list entry) : option (list date) :=
   | RaiseValueError => None
   | Ok ds => Some (map civil_from_days (sort_z ds))
   end.
-Definition agrees (c : case) : bool := option_eqb (list_eqb date_eqb) (model_out (fst c)) (snd c).
+(* the same with the translated expand_time_windows / TimeWindow constructor in place of the model's *)
+Definition gen_out (es : list entry) : option (list date) :=
+  match windows_of es with
+  | RaiseValueError => None
+  | Ok ws => if existsb (fun w => gen_timewindow_raises (fst w) (snd w)) ws then None
+             else Some (map civil_from_days (sort_z (gen_expand_time_windows ws)))
+  end.
+Definition agrees (c : case) : bool :=
+  option_eqb (list_eqb date_eqb) (model_out (fst c)) (snd c) && option_eqb (list_eqb date_eqb) (gen_out (fst c)) (snd c).
